@@ -155,7 +155,7 @@ def nodesHaveSameDomainOfValues (G : MG Var) (a b : Var) : Bool :=
   else if a.name ≠ b.name then false
   else if isNotSelfIntervened a && isNotSelfIntervened b then true
   else if isNotSelfIntervened a || isNotSelfIntervened b then false
-  else valueOfSelfIntervention a == valueOfSelfIntervention b
+  else decide (valueOfSelfIntervention a = valueOfSelfIntervention b)
 
 /-- `is_pw_equivalent` for two nodes of the graph (the `KeyError` branch is excluded by `lemma_24_holds`) -/
 def isPwEquivalent (G : MG Var) (ev : Event) (a b : Var) : Bool :=
